@@ -277,6 +277,12 @@ def gen_jit(seed=0):
             add(name, mod(name, [("a", "input ", lg(wa, sg)), ("b", "input ", lg(wb, sg)), ("c", "input ", lg(wy, sg)),
                                  ("y", "output", lg(wy, sg)), ("z", "output", lg(wy, sg)), ("t", "output", "logic")],
                           "    assign y = a + b;\n    assign z = (a * b) - c;\n    assign t = (a + b) <: c;"))
+    # unpacked arrays read at a run-time index (the JIT clamps the index and computes an address)
+    for (n, ew, iw) in [(5, 6, 3), (8, 8, 3), (3, 33, 4), (7, 1, 5), (4, 100, 2)]:
+        name = f"J_arr_{n}_{ew}_{iw}"
+        add(name, mod(name, [("a", "input ", f"logic<{ew}> [{n}]"), ("i", "input ", lg(iw)), ("j", "input ", lg(iw)),
+                             ("y", "output", lg(ew)), ("z", "output", lg(ew))],
+                      "    assign y = a[i];\n    assign z = a[i] ^ a[j];"))
     name = "J_tern"
     add(name, mod(name, [("s", "input ", lg(2)), ("a", "input ", lg(70, True)), ("b", "input ", lg(40, True)),
                          ("y", "output", lg(80, True))],
